@@ -39,7 +39,7 @@ def case(cid, rng, name, kk, re, mix8):
     import skmatter.sample_selection as Sm
     cls, axis = {"fCUR": (F.CUR, 1), "sCUR": (Sm.CUR, 0), "fPCovCUR": (F.PCovCUR, 1), "sPCovCUR": (Sm.PCovCUR, 0)}[name]
     pcovfam = "PCov" in name
-    ni = int(rng.integers(4, 7))            # number of items
+    ni = int(rng.integers(3, 7))            # number of items (3 items with k = 2: the dense eigen-solver branch k >= items - 1)
     nr = int(rng.integers(ni, 8))            # other dimension (>= items so that rank exceeds the selections)
     for _ in range(100):
         A = rng.integers(-3, 4, size=(nr, ni))
@@ -49,6 +49,8 @@ def case(cid, rng, name, kk, re, mix8):
     n_samples = X.shape[0]
     yv = rng.integers(-3, 4, size=n_samples).astype(float) if pcovfam else None
     nsel = int(rng.integers(2, min(4, ni - 1) + 1))
+    if not pcovfam:
+        kk = min(kk, min(nr, ni) - 1)        # plain CUR uses a truncated SVD that needs k < min(shape) (scipy's svds)
     kw = {"k": kk, "recompute_every": re}
     if pcovfam:
         kw["mixing"] = mix8 / 8.0
